@@ -313,6 +313,15 @@ NT, NF, ND = 2, 2, 2
 
 
 def make_dataset(xr, dl, dla):
+    ds = make_dataset_float(xr, dl, dla)
+    # stations on whole degrees are sometimes stored as integers (what `dset["lon"].values = [-10, 10]` produces)
+    if all(float(x) == int(x) for x in dl) and all(float(x) == int(x) for x in dla) and (len(dl) + int(float(dl[0]))) % 2 == 0:
+        ds["lon"] = (("site",), np.array([int(x) for x in dl], dtype="int64"))
+        ds["lat"] = (("site",), np.array([int(x) for x in dla], dtype="int64"))
+    return ds
+
+
+def make_dataset_float(xr, dl, dla):
     ns = len(dl)
     base = np.arange(NT * NF * ND, dtype=float).reshape(NT, 1, NF, ND)
     site = (np.arange(ns, dtype=float) + 1).reshape(1, ns, 1, 1) * 1000.0
@@ -354,9 +363,23 @@ def run_impl(xr, c):
         out = ds.spec.sel(lons=lons, lats=lats, method=m, tolerance=float(c["tol"]), **kw)
     except (AssertionError, ValueError, NotImplementedError, KeyError, IndexError, TypeError, ZeroDivisionError) as e:
         return "err", type(e).__name__
+    repeat = None
+    if c["as_array"]:
+        # the same query arrays reused for a second, identical call: the selection is a function of the query values
+        qchanged = not (np.array_equal(lons, np.array([float(x) for x in c["ql"]])) and np.array_equal(lats, np.array([float(x) for x in c["qla"]])))
+        try:
+            out2 = ds.spec.sel(lons=lons, lats=lats, method=m, tolerance=float(c["tol"]), **kw)
+            same2 = (out2.sizes == out.sizes and np.array_equal(out2.efth.values, out.efth.values, equal_nan=True)
+                     and np.array_equal(np.atleast_1d(out2.lon.values), np.atleast_1d(out.lon.values))
+                     and np.array_equal(np.atleast_1d(out2.lat.values), np.atleast_1d(out.lat.values)))
+        except Exception as e:
+            same2 = False
+        if qchanged or not same2:
+            repeat = ("the caller's query arrays were rewritten by sel" if qchanged else "") + \
+                     ("" if same2 else " / a second identical call with the same arrays selected differently")
     res = dict(efth=np.asarray(out.efth.transpose("time", "site", "freq", "dir").values, dtype=float),
                lon=[float(x) for x in np.atleast_1d(out.lon.values)], lat=[float(x) for x in np.atleast_1d(out.lat.values)],
-               src=ds.efth.values,
+               src=ds.efth.values, repeat=repeat,
                mutated=not (np.array_equal(before[0], ds.lon.values) and np.array_equal(before[1], ds.lat.values)
                             and np.array_equal(before[2], ds.efth.values)))
     return "ok", res
@@ -633,6 +656,8 @@ def compare_model(ck, c, st, res, resp, mode):
         return None
     if res["mutated"]:
         ck.disagree(op, "the dataset passed to sel was modified", cj)
+    if res.get("repeat"):
+        ck.fail(op, f"query given as ndarray: {res['repeat'].strip(' /')}", cj, "query_array_reuse")
     if c["method"] == "idw":
         cnt, ids, w = mo["cnt"], mo["ids"], mo["w"]
         if res["efth"].shape[1] != len(cnt):
